@@ -112,7 +112,7 @@ impl Texture {
         // the dimensions come from the file: make sure the payload really holds that many pixels before allocating for them
         let pixel_count = header.width as usize * header.height as usize * header.depth as usize;
         let required_size = match header.format {
-            TextureFormat::B4G4R4A4 => header.width as usize * header.height as usize * 2,
+            TextureFormat::B4G4R4A4 => pixel_count * 2,
             TextureFormat::B8G8R8A8 => pixel_count * 4,
             TextureFormat::BC1 => Texture::block_count(&header) * 8,
             TextureFormat::BC3 | TextureFormat::BC5 => Texture::block_count(&header) * 16,
@@ -132,7 +132,7 @@ impl Texture {
                 let mut offset = 0;
                 let mut dst_offset = 0;
 
-                for _ in 0..header.width as usize * header.height as usize {
+                for _ in 0..pixel_count {
                     let short: u16 = ((src[offset] as u16) << 8) | src[offset + 1] as u16;
 
                     let src_b = short & 0xF;
